@@ -318,3 +318,34 @@ Theorem C20_ledger_event_reread_refuted :
   Ledger.applied _ (Ledger.l2 s) = [2; 1] /\ Ledger.events _ (Ledger.l2 s) = [2; 2].
 Proof. exact Ledger.event_reread_refuted. Qed.
 Print Assumptions C20_ledger_event_reread_refuted.
+
+(* ---------- part 2, messages (after the eighth mutation round) ---------- *)
+
+(* One MPTData message = a list of nodes in one AddMPTNodes call: the per-node restore is folded over it and stops at the first
+   node that errors, KEEPING the accepted prefix in database and pool (the code persists each node's own batch before the next
+   node).  A failing message preserves the invariant [Good] (what the trie needs below the stored nodes is stored or requested
+   and nothing else; nothing requested is stored — by C20_restart_pool_exact's lemma the pool is then exactly the missing
+   children of stored nodes) and nothing that was stored is lost. *)
+Theorem C20_failed_message_keeps_invariant : forall (T : tree) (root : hash) (rank : hash -> nat),
+  (forall h n l c, lookup T h = Some n -> In (l, c) (kids n) -> (rank c < rank h)%nat) ->
+  (forall h n l c, lookup T h = Some n -> In (l, c) (kids n) -> exists nc, lookup T c = Some nc) ->
+  (exists n, lookup T root = Some n) ->
+  forall (fuel : nat) (b : list item) (s : st),
+  fuel_ok T rank fuel -> Forall (genuine T) b -> Good T root s ->
+  snd (add_nodes true fuel T b s) = true ->
+  Good T root (fst (add_nodes true fuel T b s)) /\
+  (forall c, stored (store s) c = true -> stored (store (fst (add_nodes true fuel T b s))) c = true).
+Proof. exact failed_message_keeps_invariant. Qed.
+Print Assumptions C20_failed_message_keeps_invariant.
+
+(* "batch dropped, pool kept": the accepted prefix of a failing message is thrown away with the message's batch while the pool
+   has moved on — node 3 is neither requested nor stored, the remaining nodes arrive, the pool empties, the stage is
+   "synchronised" with node 3 missing *)
+Theorem C20_failed_message_dropped_batch_refuted :
+  let s1 := fst (add_nodes true 5 exT [w 1] (Restore.init 1)) in
+  let s2 := fst (add_nodes_drop 5 exT [w 3; IBad] s1) in
+  let s3 := fst (add_nodes true 5 exT [w 2; w 4] s2) in
+  snd (add_nodes_drop 5 exT [w 3; IBad] s1) = true /\ ~ In 3 (pool_hashes s2) /\ stored (store s2) 3 = false /\
+  pool s3 = [] /\ synced s3 = true /\ stored (store s3) 3 = false.
+Proof. exact failed_message_dropped_batch_refuted. Qed.
+Print Assumptions C20_failed_message_dropped_batch_refuted.
